@@ -10,8 +10,10 @@ package threading
 
 import (
 	"fmt"
+	"runtime"
 	"strconv"
 	"sync"
+	"sync/atomic"
 	"testing"
 	"time"
 
@@ -20,12 +22,36 @@ import (
 	"github.com/zeromicro/go-zero/internal/verifh"
 )
 
-func c05GenThreading(r *verifh.Rng) []verifh.Section {
+func c05GenThreadingSeq(r *verifh.Rng) []verifh.Section {
 	var secs []verifh.Section
-	for i := 0; i < verifh.Scale(8, 300); i++ {
+	for i := 0; i < verifh.Scale(20, 300); i++ {
 		n := c5.PickN(r)
 		secs = append(secs, verifh.Section{Cfg: fmt.Sprintf("kind=runner mode=seq n=%d", n),
 			Ops: c5.SeqOps(r, n, r.Range(10, 50), true, c5.FinishOp(r))})
+	}
+	// … with Wait calls in between (nothing running: returns; tasks running: blocks until the last has ended)
+	for i := 0; i < verifh.Scale(12, 150); i++ {
+		n := c5.PickN(r)
+		var ops []string
+		for _, o := range c5.SeqOps(r, n, r.Range(8, 30), true, c5.FinishOp(r)) {
+			ops = append(ops, o)
+			if r.Chance(1, 5) {
+				ops = append(ops, "wait")
+			}
+		}
+		secs = append(secs, verifh.Section{Cfg: fmt.Sprintf("kind=runner mode=seq n=%d", n), Ops: append(ops, "wait", "probe")})
+	}
+	return secs
+}
+
+func c05GenThreadingConc(r *verifh.Rng) []verifh.Section {
+	var secs []verifh.Section
+	for i := 0; i < verifh.Scale(6, 100); i++ {
+		n := r.Pick(1, 2, 3, r.Range(1, 12), 16)
+		secs = append(secs, verifh.Section{Cfg: fmt.Sprintf("kind=wgroup mode=conc n=%d", n), Ops: []string{
+			fmt.Sprintf("run api=workergroup pan=%d rs=%d", r.Pick(0, 30, 100), r.Intn(1<<30)),
+			fmt.Sprintf("run api=routinegroup pan=%d rs=%d", r.Pick(0, 0, 50), r.Intn(1<<30)),
+		}})
 	}
 	for i := 0; i < verifh.Scale(5, 150); i++ {
 		n := r.Pick(1, 2, 3, r.Range(1, 8))
@@ -46,7 +72,36 @@ type c05Gate struct {
 func c05StartRunner(cfg verifh.Cfg) (func(op []string) string, func()) {
 	n := cfg.Int("n", 1)
 	rp := NewTaskRunner(n)
-	var running []*c05Gate // tasks admitted and blocked on their gate, oldest first
+	base := runtime.NumGoroutine()
+	wgLeaked := false
+	stuckWaits := 0 // Wait calls of this section that never returned (their goroutines stay)
+	var running []*c05Gate
+	closed := func(ch chan struct{}) func() bool {
+		return func() bool {
+			select {
+			case <-ch:
+				return true
+			default:
+				return false
+			}
+		}
+	}
+	// waitIdle calls rp.Wait when the harness knows that `expect` task goroutines may still be alive: once the
+	// goroutine count is back at its base every task goroutine is gone and Wait has nothing left to wait for —
+	// a Wait that has not returned shortly after is stuck (no long timeout needed).
+	waitIdle := func() bool {
+		done := make(chan struct{})
+		go func() { rp.Wait(); close(done) }()
+		c5.WaitUntil(20*time.Second, func() bool {
+			return closed(done)() || runtime.NumGoroutine() <= base+1+stuckWaits
+		})
+		if c5.WaitUntil(300*time.Millisecond, closed(done)) {
+			return true
+		}
+		stuckWaits++
+		wgLeaked = true
+		return false
+	} // tasks admitted and blocked on their gate, oldest first
 	newTask := func() (*c05Gate, func()) {
 		g := &c05Gate{ch: make(chan bool), done: make(chan struct{})}
 		return g, func() {
@@ -65,11 +120,22 @@ func c05StartRunner(cfg verifh.Cfg) (func(op []string) string, func()) {
 		before := len(rp.limitChan)
 		g.ch <- pan
 		<-g.done
-		// the slot is released by the deferred clean-up after the task body ended
-		if !c5.WaitUntil(5*time.Second, func() bool { return len(rp.limitChan) < before }) {
-			return "leaked"
+		// the slot is released by the deferred clean-up after the task body ended; the goroutine is gone
+		// right after it — a goroutine count back at the expected level with the slot still taken is a leak
+		// seen without waiting out a timeout
+		c5.WaitUntil(5*time.Second, func() bool {
+			return len(rp.limitChan) < before || runtime.NumGoroutine() <= base+len(running)
+		})
+		if len(rp.limitChan) < before {
+			return "ok"
 		}
-		return "ok"
+		for i := 0; i < 50 && len(rp.limitChan) >= before; i++ {
+			runtime.Gosched()
+		}
+		if len(rp.limitChan) < before {
+			return "ok"
+		}
+		return "leaked"
 	}
 	probe := func() int {
 		k := 0
@@ -136,6 +202,56 @@ func c05StartRunner(cfg verifh.Cfg) (func(op []string) string, func()) {
 			return "blocked"
 		case "finish":
 			return finish(len(op) > 1 && op[1] == "panic")
+		case "wait":
+			// TaskRunner.Wait: returns at once when nothing is running (also after refused
+			// ScheduleImmediately calls); blocks while tasks run and returns when the last one has ended
+			if wgLeaked {
+				return "stuck" // seen before in this section: the count never comes back
+			}
+			done := make(chan struct{})
+			isDone := func() bool {
+				select {
+				case <-done:
+					return true
+				default:
+					return false
+				}
+			}
+			go func() { rp.Wait(); close(done) }()
+			if len(running) == 0 {
+				// every task goroutine is gone once the goroutine count is back at base (+ the Wait call):
+				// from then on Wait has nothing left to wait for
+				c5.WaitUntil(5*time.Second, func() bool { return isDone() || runtime.NumGoroutine() <= base+1 })
+				if c5.WaitUntil(300*time.Millisecond, isDone) {
+					return "returns"
+				}
+				wgLeaked = true
+				return "stuck"
+			}
+			select {
+			case <-done:
+				return fmt.Sprintf("returns-early running=%d", len(running))
+			case <-time.After(time.Millisecond):
+			}
+			for len(running) > 1 {
+				if res := finish(false); res != "ok" {
+					return res
+				}
+				select {
+				case <-done:
+					return fmt.Sprintf("returns-early running=%d", len(running))
+				default:
+				}
+			}
+			if res := finish(false); res != "ok" {
+				return res
+			}
+			c5.WaitUntil(5*time.Second, func() bool { return isDone() || runtime.NumGoroutine() <= base+1 })
+			if c5.WaitUntil(300*time.Millisecond, isDone) {
+				return "blocked"
+			}
+			wgLeaked = true
+			return "stuck"
 		case "probe":
 			return fmt.Sprintf("free=%d", probe())
 		case "run":
@@ -166,8 +282,12 @@ func c05StartRunner(cfg verifh.Cfg) (func(op []string) string, func()) {
 			if !c5.Watchdog(c5.StuckAfter, wg.Wait) {
 				return "stuck"
 			}
-			if !c5.Watchdog(5*time.Second, rp.Wait) {
+			if !waitIdle() {
 				return "stuck wait"
+			}
+			// Wait returned: no task may still be inside its body
+			if cur := ga.Cur(); cur != 0 {
+				return fmt.Sprintf("early=%d %s", cur, c5.RunLine(h, ga, cap(rp.limitChan)-len(rp.limitChan)))
 			}
 			// Wait returned: every slot has to be free already (release happens before Done)
 			free := cap(rp.limitChan) - len(rp.limitChan)
@@ -182,16 +302,67 @@ func c05StartRunner(cfg verifh.Cfg) (func(op []string) string, func()) {
 		for len(running) > 0 {
 			finish(false)
 		}
-		c5.Watchdog(time.Second, rp.Wait)
+		if !wgLeaked {
+			waitIdle()
+		}
 	}
 }
 
-func TestVerifC05Threading(t *testing.T) {
+func TestVerifC05ThreadingSeq(t *testing.T) { c05RunThreading(t, verifh.Sections(c05GenThreadingSeq)) }
+
+func TestVerifC05ThreadingConc(t *testing.T) { c05RunThreading(t, verifh.Sections(c05GenThreadingConc)) }
+
+// WorkerGroup / RoutineGroup: `run` starts NewWorkerGroup(job, n).Start(); the jobs stamp the history.
+func c05StartWorkerGroup(cfg verifh.Cfg) (func(op []string) string, func()) {
+	n := cfg.Int("n", 1)
+	step := func(op []string) string {
+		if op[0] != "run" {
+			return "bad-op"
+		}
+		p := c5.Params(op)
+		pan := p.Int("pan", 0)
+		h := c5.NewHist(0)
+		ga := &c5.Gauge{}
+		var ids int64
+		job := func() {
+			tid := int(atomic.AddInt64(&ids, 1)) - 1
+			c5.Inside(h, ga, verifh.NewRng(uint64(p.Int("rs", 1))*1000003+uint64(tid)), -1, tid, pan)
+		}
+		if p.Str("api", "workergroup") == "workergroup" {
+			if !c5.WatchdogProgress(h, c5.StuckIdle, c5.StuckAfter, NewWorkerGroup(job, n).Start) {
+				return "stuck"
+			}
+		} else {
+			// RoutineGroup used directly: n calls, Run (only without panics: Run does not recover) or RunSafe
+			g := NewRoutineGroup()
+			for i := 0; i < n; i++ {
+				if pan == 0 && i%2 == 0 {
+					g.Run(job)
+				} else {
+					g.RunSafe(job)
+				}
+			}
+			if !c5.WatchdogProgress(h, c5.StuckIdle, c5.StuckAfter, g.Wait) {
+				return "stuck"
+			}
+		}
+		// Start / Wait returned: every job has to have ended
+		if cur := ga.Cur(); cur != 0 {
+			return fmt.Sprintf("early=%d %s", cur, c5.RunLine(h, ga, -1))
+		}
+		return c5.RunLine(h, ga, -1)
+	}
+	return step, nil
+}
+
+func c05RunThreading(t *testing.T, secs []verifh.Section) {
 	logx.Disable()
-	secs := verifh.Sections(c05GenThreading)
 	verifh.Run(t, secs, func(cfg verifh.Cfg) (func(op []string) string, func()) {
 		if cfg.Str("kind", "") == "runner" {
 			return c05StartRunner(cfg)
+		}
+		if cfg.Str("kind", "") == "wgroup" {
+			return c05StartWorkerGroup(cfg)
 		}
 		return func([]string) string { return "bad-kind" }, nil
 	})
